@@ -52,6 +52,37 @@ pub fn run(k: &str, a: &Value) -> Option<Value> {
                    "surf": {"point": [fo(sp.point.x), fo(sp.point.y), fo(sp.point.z)], "normal": [fo(sp.normal.x), fo(sp.normal.y), fo(sp.normal.z)]},
                    "closest": [fo(c.x), fo(c.y), fo(c.z)]})
         }
+        "mesh_section" => {
+            use engeom::{Plane3, UnitVec3};
+            use parry3d_f64::query::IntersectResult;
+            let scene = a["scene"].as_str().unwrap();
+            let (m, n, d): (Mesh, Vector3, f64) = match scene {
+                "box_z" => (Mesh::create_box(2.0, 2.0, 2.0, false), Vector3::new(0.0, 0.0, 1.0), 0.3),
+                "box_diagonal" => (Mesh::create_box(2.0, 3.0, 1.0, false), Vector3::new(1.0, 1.0, 0.2).normalize(), 0.1),
+                _ => {
+                    // two disjoint boxes: two rings
+                    let b1 = Mesh::create_box(2.0, 2.0, 2.0, false);
+                    let mut verts: Vec<Point3> = b1.vertices().to_vec();
+                    let mut faces: Vec<[u32; 3]> = b1.faces().to_vec();
+                    let off = verts.len() as u32;
+                    verts.extend(b1.vertices().iter().map(|p| Point3::new(p.x + 5.0, p.y, p.z)));
+                    faces.extend(b1.faces().iter().map(|t| [t[0] + off, t[1] + off, t[2] + off]));
+                    (Mesh::new(verts, faces, false), Vector3::new(0.0, 0.0, 1.0), 0.3)
+                }
+            };
+            let normal = UnitVec3::new_normalize(n);
+            let raw = m.tri_mesh().intersection_with_local_plane(&normal, d, 1.0e-6);
+            let (rv, ri) = match raw {
+                IntersectResult::Intersect(pl) => (pl.vertices().iter().map(|p| json!([fo(p.x), fo(p.y), fo(p.z)])).collect::<Vec<_>>(), pl.indices().iter().map(|i| json!([i[0], i[1]])).collect::<Vec<_>>()),
+                _ => (vec![], vec![]),
+            };
+            if a.get("raw_only").is_some() {
+                return Some(json!({"raw_vertices": rv, "raw_pairs": ri}));
+            }
+            let curves = m.section(&Plane3::new(normal, d), None).unwrap();
+            json!({"raw_vertices": rv, "raw_pairs": ri,
+                   "curves": curves.iter().map(|c| c.points().iter().map(|p| json!([fo(p.x), fo(p.y), fo(p.z)])).collect::<Vec<_>>()).collect::<Vec<_>>()})
+        }
         _ => return None,
     })
 }
